@@ -1,7 +1,7 @@
 // C06 correspondence harness for service/internal/graph (injected by overlay; package-internal).
 //
-// Generated pipeline trees — one receiver feeding 1..3 pipelines; each pipeline has 0..3 processors
-// and 1..3 exporters, an exporter may be a same-signal connector feeding 1..3 further pipelines —
+// Generated pipeline trees — one receiver feeding 1..6 pipelines; each pipeline has 0..5 processors
+// and 1..6 exporters, an exporter may be a same-signal connector feeding 1..5 further pipelines —
 // with a declared MutatesData capability on every processor, exporter and connector, are built by
 // the REAL graph.Build (capabilitiesNode computation in buildComponents, connector.go aggregateCap,
 // capabilityconsumer, the receiver / connector-router / exporter fan-outs of fanoutconsumer).
@@ -82,6 +82,7 @@ type vWorldT struct {
 	ended    bool
 	// shape of the payload pushed through the graph (see vGTraces)
 	payloadKind int
+	roIn        bool // the receiver hands over a payload it has marked read-only (it keeps using it)
 }
 
 type vGCtxKey struct{}
@@ -291,6 +292,9 @@ var vRecvFactory = xreceiver.NewFactory(component.MustNewType("vrecv"), vCfg,
 		vWorld.push[set.ID.Name()] = func(ctx context.Context) error {
 			p := vGTraces(vWorld.payloadKind)
 			vWorld.cellOf(p) // the sent payload is cell 0
+			if vWorld.roIn {
+				p.MarkReadOnly()
+			}
 			return n.ConsumeTraces(ctx, p)
 		}
 		return vNewComp(set.ID), nil
@@ -300,6 +304,9 @@ var vRecvFactory = xreceiver.NewFactory(component.MustNewType("vrecv"), vCfg,
 		vWorld.push[set.ID.Name()] = func(ctx context.Context) error {
 			p := vGMetrics(vWorld.payloadKind)
 			vWorld.cellOf(p) // the sent payload is cell 0
+			if vWorld.roIn {
+				p.MarkReadOnly()
+			}
 			return n.ConsumeMetrics(ctx, p)
 		}
 		return vNewComp(set.ID), nil
@@ -309,6 +316,9 @@ var vRecvFactory = xreceiver.NewFactory(component.MustNewType("vrecv"), vCfg,
 		vWorld.push[set.ID.Name()] = func(ctx context.Context) error {
 			p := vGLogs(vWorld.payloadKind)
 			vWorld.cellOf(p) // the sent payload is cell 0
+			if vWorld.roIn {
+				p.MarkReadOnly()
+			}
 			return n.ConsumeLogs(ctx, p)
 		}
 		return vNewComp(set.ID), nil
@@ -318,6 +328,9 @@ var vRecvFactory = xreceiver.NewFactory(component.MustNewType("vrecv"), vCfg,
 		vWorld.push[set.ID.Name()] = func(ctx context.Context) error {
 			p := vGProfiles(vWorld.payloadKind)
 			vWorld.cellOf(p) // the sent payload is cell 0
+			if vWorld.roIn {
+				p.MarkReadOnly()
+			}
 			return n.ConsumeProfiles(ctx, p)
 		}
 		return vNewComp(set.ID), nil
@@ -416,18 +429,18 @@ func (g *vTreeGen) fresh(prefix string, mut bool) string {
 func (g *vTreeGen) pipe(depth int, pm int) *vPipeT {
 	g.n++
 	p := &vPipeT{name: fmt.Sprintf("pl%d", g.n)}
-	for k, m := 0, g.rng.Pick(3, 3, 2, 1); k < m; k++ {
+	for k, m := 0, g.rng.Pick(9, 9, 6, 3, 1, 1); k < m; k++ { // 0..5 processors
 		mut := g.rng.Intn(100) < pm
 		p.procs = append(p.procs, mut)
 		p.procName = append(p.procName, g.fresh("p", mut))
 	}
-	for k, m := 0, 1+g.rng.Pick(4, 3, 2); k < m; k++ {
+	for k, m := 0, 1+g.rng.Pick(12, 9, 6, 1, 1, 1); k < m; k++ { // 1..6 exporters / connectors
 		mut := g.rng.Intn(100) < pm
 		nd := &vNodeT{mut: mut}
 		if depth > 0 && g.rng.Intn(100) < 35 {
 			nd.conn = true
 			nd.name = g.fresh("c", mut)
-			for j, mm := 0, 1+g.rng.Pick(4, 3, 1); j < mm; j++ {
+			for j, mm := 0, 1+g.rng.Pick(8, 6, 2, 1, 1); j < mm; j++ { // 1..5 pipelines behind a connector
 				nd.nexts = append(nd.nexts, g.pipe(depth-1, pm))
 			}
 		} else {
@@ -640,6 +653,10 @@ func vRunTree(out *vOut, sig int, roots []*vPipeT, simple bool, ctxMode, ctxPick
 		ctx, cancel := context.WithCancel(context.WithValue(context.Background(), vGCtxKey{}, 4242))
 		defer cancel()
 		w.cancel = cancel
+		w.roIn = ctxPick%5 == 0
+		if w.roIn {
+			out.Stat("graph_input_readonly", 1)
+		}
 		w.payloadKind = (ctxPick / 3) % 3
 		out.Stat(fmt.Sprintf("graph_payload_kind_%d", w.payloadKind), 1)
 		switch ctxMode {
@@ -787,7 +804,7 @@ func vRunTree(out *vOut, sig int, roots []*vPipeT, simple bool, ctxMode, ctxPick
 		arrT = append(arrT, fmt.Sprintf("(%d,(%d,%s))", idOf[name], 2*a.cell+ro, mkZ(a.arrival)))
 		finT = append(finT, fmt.Sprintf("(%d,%s)", idOf[name], mkZ(a.final())))
 	}
-	gterm := fmt.Sprintf("(CGraph %d (CFanout %s) %s %s)", sig, vList(rt), vList(arrT), vList(finT))
+	gterm := fmt.Sprintf("(CGraph %d %s (CFanout %s) %s %s)", sig, vBool(w.roIn), vList(rt), vList(arrT), vList(finT))
 	out.Case(len(all) >= 2, gterm)
 	out.Stat("graph_tree_cases", 1)
 
@@ -826,6 +843,17 @@ func TestVerifC06Graph(t *testing.T) {
 	defer out.Close()
 	rng := vNewRand(650)
 	g := &vTreeGen{rng: rng}
+	// (0) the witness of pipeline_advertises_only_if_it_mutates_refuted, replayed on the implementation: a pipeline
+	// whose only exporter is a non-mutating connector feeding a mutating and a non-mutating pipeline advertises
+	// MutatesData; the CTree / CGraph comparison shows the advertised capability and that nobody writes its payload
+	for sig := 0; sig < 4; sig++ {
+		g.n = 0
+		pa := &vPipeT{name: "plA", procs: []bool{true}, procName: []string{g.fresh("p", true)}, exps: []*vNodeT{{mut: false, name: g.fresh("e", false)}}}
+		pb := &vPipeT{name: "plB", exps: []*vNodeT{{mut: false, name: g.fresh("e", false)}}}
+		conn := &vNodeT{conn: true, mut: false, name: g.fresh("c", false), nexts: []*vPipeT{pa, pb}}
+		vRunTree(out, sig, []*vPipeT{{name: "plW", exps: []*vNodeT{conn}}}, false, 0, 0)
+		out.Stat("graph_witness_over_advertising_pipeline", 1)
+	}
 	// (1) exhaustive: one pipeline, 0..2 processors x 1..3 exporters, every capability vector, signals in rotation
 	k := 0
 	for np := 0; np <= 2; np++ {
@@ -854,7 +882,7 @@ func TestVerifC06Graph(t *testing.T) {
 		g.n = 0
 		pm := []int{0, 15, 40, 70, 100}[rng.Intn(5)]
 		var roots []*vPipeT
-		for j, mm := 0, 1+rng.Pick(3, 4, 2); j < mm; j++ {
+		for j, mm := 0, 1+rng.Pick(6, 8, 4, 1, 1, 1); j < mm; j++ { // 1..6 pipelines under the receiver
 			roots = append(roots, g.pipe(2, pm))
 		}
 		vRunTree(out, c%4, roots, false, rng.Pick(2, 1, 2), rng.Intn(64))
